@@ -160,6 +160,14 @@ class DataflowAnalysisAttacher(Transformer):
 
         return self.visit_Node(o, live_symbols=_live, defines_symbols=_defines, uses_symbols=_uses, **kwargs)
 
+    def visit_TypeDef(self, o, **kwargs):
+        # A derived type definition does not define symbols in the enclosing scope,
+        # it uses the symbols used by its component declarations (e.g., kind parameters)
+        live = kwargs.pop('live_symbols', OrderedSet())
+        body, _, uses = self._visit_body(o.body, live=live, **kwargs)
+        o._update(body=body)
+        return self.visit_Node(o, live_symbols=live, uses_symbols=uses, **kwargs)
+
     def visit_Loop(self, o, **kwargs):
         # A loop defines the induction variable for its body before entering it
         live = kwargs.pop('live_symbols', OrderedSet())
@@ -350,6 +358,11 @@ class DataflowAnalysisDetacher(Transformer):
     def visit_Node(self, o, **kwargs):
         o._update(_live_symbols=None, _defines_symbols=None, _uses_symbols=None)
         return super().visit_Node(o, **kwargs)
+
+    def visit_ScopedNode(self, o, **kwargs):
+        # Scoped nodes (e.g., Associate, TypeDef) are dispatched to their own handler
+        o._update(_live_symbols=None, _defines_symbols=None, _uses_symbols=None)
+        return super().visit_ScopedNode(o, **kwargs)
 
 
 class DataflowAnalysis(AbstractDataflowAnalysis):
